@@ -474,9 +474,17 @@ def r4_limit_writers(ctx, rule):
         ctx.ok(rule, ENTRY + '::parse_command_line', "program_info['limit'] is written only from args.limit; sys.stdout is never re-bound")
 
 
+def _limit_blind_queue(ctx, rule):
+    # the first N lines of a --limit N run are the first N of the unlimited run only if the limit never reaches the queue: the heap
+    # is touched by heappush / heappop alone, so its tie order cannot depend on N (seed C09-i: PcfgQueue.trim(limit) rebuilt the
+    # heap with heapq.nsmallest and tied pre-terminals came out in another order)
+    from . import c01
+    return c01.r2_heap_ownership(ctx, rule)
+
+
 def rules(tier):
     return [('C09.R1', r1_single_stdout_writer), ('C09.R2', r2_pairing), ('C09.R3', r3_threading), ('C09.R4', r4_limit_writers),
-            ('C09.R5', lambda c, r: __import__('sa.props.c04', fromlist=['x']).r12_output_point_total(c, r))]
+            ('C09.R5', lambda c, r: __import__('sa.props.c04', fromlist=['x']).r12_output_point_total(c, r)), ('C09.R6', _limit_blind_queue)]
 
 
 META = {
